@@ -191,7 +191,7 @@ def main(pid, tier="quick", seed=0, jobs=None, only=None, write_baseline=False):
         if covers.get(cv, 0) == 0:
             broken.append(f"cover never reached: {cv}")
     if base_ids and exit_code == 0 and not only:
-        stat = [i for i in baseline.get(tier, []) if "/lib-pre/" not in i]
+        stat = [i for i in baseline.get(tier, []) if "/lib-pre/" not in i and "/rnd:" not in i]
         missing = [i for i in stat if i not in obligations]
         if missing:
             # an obligation that existed on the baseline tree was not generated at all
@@ -257,7 +257,7 @@ def main(pid, tier="quick", seed=0, jobs=None, only=None, write_baseline=False):
         if os.path.exists(p):
             with open(p) as f:
                 data = json.load(f)
-        data.setdefault(pid, {})[tier] = sorted(o for o in obligations if "/lib-pre/" not in o)
+        data.setdefault(pid, {})[tier] = sorted(o for o in obligations if "/lib-pre/" not in o and "/rnd:" not in o)
         with open(p, "w") as f:
             json.dump(data, f, indent=0, sort_keys=True)
 
